@@ -140,10 +140,11 @@ def ieModel (m : Model) : Model :=
 their bit pattern, tensors by (shape, dtype, bytes) and string tensors by their strings: two keys are equal
 iff the attribute values are equal. -/
 
-/-- common_subexpression_elimination.py `_is_non_deterministic_op` -/
+/-- common_subexpression_elimination.py `_is_non_deterministic_op` (RandomUniform, RandomNormal,
+    RandomUniformLike, RandomNormalLike, Multinomial, Bernoulli; domain "") -/
 def isNonDeterministicOp (op : OpId) : Bool :=
-  ["RandomUniform", "RandomNormal", "RandomUniformLike", "RandomNormalLike", "Multinomial"].contains op.name
-    && op.domain == ""
+  ["RandomUniform", "RandomNormal", "RandomUniformLike", "RandomNormalLike", "Multinomial", "Bernoulli"].contains
+    op.name && op.domain == ""
 
 /-- control-flow node, tensor attribute above the size limit, or random op: never a candidate -/
 def cseSkip (limit : Nat) (op : OpId) (attrs : List (String × AttrData)) (bodies : List Graph) : Bool :=
